@@ -131,6 +131,14 @@ fn run(name: &str, a: i128, b: i128) -> String {
         "f32_div" => { let v = t_f32_div(a, b); format!("I {}", v) }
         "f32_add" => { let v = t_f32_add(a, b); format!("I {}", v) }
         "i64_ratio_f32" => { let v = t_i64_ratio_f32(a, b); format!("I {}", v) }
+        "sub_unsigned" => { let v = t_sub_unsigned(a, b); match v { Some(x) => format!("S {}", x), None => "N".to_string() } }
+        "add_unsigned" => { let v = t_add_unsigned(a, b); match v { Some(x) => format!("S {}", x), None => "N".to_string() } }
+        "ilog2" => { let v = t_ilog2(a, b); format!("I {}", v) }
+        "checked_ilog2" => { let v = t_checked_ilog2(a, b); match v { Some(x) => format!("S {}", x), None => "N".to_string() } }
+        "rev_map" => { let v = t_rev_map(a, b); format!("I {}", v) }
+        "and_signed_low" => { let v = t_and_signed_low(a, b); format!("I {}", v) }
+        "and_signed_mid" => { let v = t_and_signed_mid(a, b); format!("I {}", v) }
+        "and_signed_1" => { let v = t_and_signed_1(a, b); format!("I {}", v) }
         _ => "BADNAME".to_string(),
     }
 }
